@@ -285,3 +285,7 @@ def run(ctx):
     poolsim.judge_worlds(worlds, ws, ctx, "C05")
     w = worlds[len(worlds) // 2]
     ctx.sample({"scenario": ws[len(worlds) // 2], "schedule": w.schedule[:40], "events": [e["op"] for e in w.events][:30]})
+
+
+def replay_witness(ctx, witness):
+    return poolsim.replay_witness(ctx, witness, harness_factory=Harness)
